@@ -27,7 +27,8 @@ pub fn drain<const N: usize, P: Pad>(ctx: &mut Ctx) {
     let starts = if N == 0 { 1 } else { N };
     let _ = items_off::<N, P>();
     let mut vc = 777u32;
-    let all_scripts = scripts_upto((N + 1).min(maxscript));
+    let mut all_scripts = scripts_upto((N + 1).min(maxscript));
+    all_scripts.extend(nth_scripts());
     for start in 0..starts {
         for len in 0..=N {
             for a in 0..=len {
